@@ -43,6 +43,18 @@ def run_budgeted(fn, n):
     return cnt[0], outcome
 
 
+def tb_depth(fn):
+    """entries in the traceback of the error fn() raises (0 when it returns)"""
+    try:
+        fn()
+    except Exception as ex:
+        n, tb = 0, ex.__traceback__
+        while tb is not None:
+            n, tb = n + 1, tb.tb_next
+        return n
+    return 0
+
+
 def decoders():
     d = {f: datafmt.decoder(f) for f in datafmt.GEN}
     SCC = mod("pyscsi.pyscsi.scsi_sense").SCSICheckCondition
@@ -84,7 +96,8 @@ def run(chk, replay=None):
     ev.assumptions += [
         "work is measured in CPython 'line' events inside <repo>/pyscsi; the budget 2000 + 1000*len(buffer) is two orders "
         "of magnitude above the measured need of a terminating decoder",
-        "returning or raising any exception is fine; only exceeding the budget is a violation",
+        "returning or raising any exception is fine; only exceeding the budget is a violation - and an error that grows "
+        "with every repetition of the same rejected response (allocation without bound over a session)",
         "READ CD is called with tl consistent with the buffer, as the facade does",
     ]
     if replay is not None:
@@ -113,16 +126,28 @@ def run(chk, replay=None):
         for base in bases:
             for b in mutants(rng, base, chk.quick):
                 steps, outcome = run_budgeted(lambda: dec[fmt](b), len(b))
-                events.append({"fmt": fmt, "len": len(b), "steps": steps, "outcome": outcome, "bytes": list(b[:64])})
+                tb1 = tbn = 0
+                if outcome == "raised" and (chk.quick or len(events) % 4 == 0):
+                    # a device that keeps sending the same malformed response: what the error of the 12th
+                    # rejection holds on to (its traceback, whose frames keep the buffers alive) is no more than
+                    # what the first one held
+                    tb1 = tb_depth(lambda: dec[fmt](b))
+                    for _ in range(10):
+                        tb_depth(lambda: dec[fmt](b))
+                    tbn = tb_depth(lambda: dec[fmt](b))
+                events.append({"fmt": fmt, "len": len(b), "steps": steps, "outcome": outcome, "bytes": list(b[:64]),
+                               "tb1": tb1, "tbn": tbn})
                 ev.case((fmt, bytes(b[:64]), len(b)))
     vs, st = tlc.judge_traces("Trace_Decoders", "Trace_Decoders.cfg",
-                              [{k: e[k] for k in ("fmt", "len", "steps", "outcome")} for e in events], name="c11tr")
+                              [{k: e[k] for k in ("fmt", "len", "steps", "outcome", "tb1", "tbn")} for e in events], name="c11tr")
     ev.judged("Trace_Decoders", st, len(events))
     for i, clause, detail in vs:
         e = events[i]
-        chk.violation({"clause": "Termination", "cls": "", "field": "", "fmt": e["fmt"].split("/")[0],
-                       "detail": {"budget": detail, "event": e}, "what": "decoder exceeded its step budget"},
-                      dedup=("Termination", e["fmt"].split("/")[0]))
+        chk.violation({"clause": clause, "cls": "", "field": "", "fmt": e["fmt"].split("/")[0],
+                       "detail": {"budget": detail, "event": e},
+                       "what": "decoder exceeded its step budget" if clause == "Termination" else
+                       "the error of a repeated rejection keeps growing"},
+                      dedup=(clause, e["fmt"].split("/")[0]))
     worst = sorted(events, key=lambda e: -e["steps"] / (2000.0 + 1000 * e["len"]))[:3]
     ev.cov["largest_budget_fraction"] = [{"fmt": e["fmt"], "len": e["len"], "steps": e["steps"],
                                           "fraction": round(e["steps"] / (2000.0 + 1000 * e["len"]), 4)} for e in worst]
